@@ -55,7 +55,7 @@ type concSub struct {
 	SeqCall  int64  `json:"seq_call"`
 	SeqRet   int64  `json:"seq_ret"`
 	Err      string `json:"err,omitempty"`
-	Global   int64  `json:"global,omitempty"` // baton order
+	Global   int64  `json:"global,omitempty"`   // baton order
 	MayDrop  bool   `json:"may_drop,omitempty"` // submitted right before Shutdown began with all workers busy
 }
 
@@ -657,7 +657,7 @@ func (e *concEngine) checkExactlyOnce() {
 	}
 	// order per (cycle, producer, group, channel)
 	type key struct {
-		cycle, p int
+		cycle, p  int
 		group, ch string
 	}
 	last := map[key]*concSub{}
